@@ -41,6 +41,9 @@ def cases(ctx):
             # category an explicit (long) row list that is intersected with very short ones
             c = gen.lopsided_cube_case(rng, frequent_explicit=bool(rng.random() < 0.3))
             ctx.count("class:one_very_frequent_category")
+        elif i % 25 == 13 or i % 50 == 29:
+            c = gen.sparse_regime_case(rng)
+            ctx.count("class:many_categories_few_scattered_uncommon_rows")
         else:
             c = gen.cube_case(rng, min_dims=1, max_dims=3, max_axes=2, max_extent=4, explicit_shape=False,
                               allow_outside_common=True, n=gen.pick(rng, [1, 2, 3, 5, 8, 17, 40, 64, 150]))
@@ -87,9 +90,15 @@ def judge(ctx, case):
         renorm = bool(rng.random() < 0.25)
         dims = []
         changed = False
+        rebuilt = bool(rng.random() < 0.3)
         for d, (x, v) in enumerate(zip(base_dims, enc)):
-            y = x.copy()
-            y.shift_common(int(v))
+            if rebuilt and dense[d].ndim <= 2:
+                # the other road to the same encoding: the library's constructor from the dense data, told the common value
+                y = catii.iindex.from_array(dense[d], common=int(v))
+                ctx.count("enc:rebuilt_from_dense_data")
+            else:
+                y = x.copy()
+                y.shift_common(int(v))
             if renorm and d == 0:
                 y.shift_common()
                 ctx.count("enc:renormalised")
